@@ -1,17 +1,26 @@
 """C06 — inline caches are semantically transparent.
 
-E2, stateless: EVERY operation history up to a depth over a stated alphabet (vlib/c06_gen.py) whose last operation is an
-access-site invocation (the others are prefixes of longer ones).  Each history is compiled as one block of JavaScript
-with a fresh universe and TEXTUALLY FRESH access-site function literals (inline caches live in the CodeBlock of a function
-literal; a closure factory would share them), so the same site sees every object the history shows it and nothing else.
-Oracle: self-differential — the trace (values read, getter/setter call lines, error names, final structural dump of
-o, p, q, H, globalThis.a, Object.prototype.a/b) with caches ON must equal the trace with caches OFF (`mode` letter `I`:
-InlineCache::get -> None, InlineCache::set -> no-op), each in its own fresh context; a Rust/engine panic is a violation.
+E2, stateless: EVERY operation history of a stated depth over a stated alphabet (vlib/c06_gen.py; ~65 operations on a receiver `o`,
+prototypes `p`, `q`, a home object `H` for `super.a`, the global object and Object.prototype) whose last operation is an
+access-site invocation (the others are prefixes of longer ones).  Each history is compiled as one block of JavaScript with a
+fresh universe and TEXTUALLY FRESH access-site function literals (inline caches live in the CodeBlock of a function literal; a
+closure factory would share them), so the same site sees every object the history shows it and nothing else.
 
-Execution: blocks of BATCH histories share one script/context per mode (fresh context per *batch*, fresh sites and fresh
-objects per *history*); blocks are delimited by `#label` ... `$` lines and compared block by block.  A block that differs and
-is not a listed known finding is re-executed alone in a fresh context (and confirmed twice) before it is reported; the
-histories after a panicking block are re-queued.  Family `fresh` runs every history alone in its own context.
+Oracle: self-differential — the per-history trace (values read, getter/setter call lines, error names, final structural dump of
+o, p, q, H, globalThis.a, Object.prototype.a/b plus an uncached read-back) with caches ON must equal the trace with caches OFF
+(`mode` letter `I`: InlineCache::get -> None, InlineCache::set -> no-op), each side in its own fresh context; a Rust/engine
+panic, abort or hang is a violation.
+
+Execution: up to 64 blocks (240 // depth, the harness allows ~250 caught exceptions per evaluation) share one script/context per
+mode — fresh context per *batch*, fresh sites and fresh objects per *history* — delimited by `#label` ... `$` lines and compared
+block by block.  A block that stops the script (panic) is re-executed alone with the reference side first and the histories after
+it are re-queued.  Histories named in the committed known-lists are executed alone from the start (scheduling only).  A divergence
+that is not a listed known finding is re-executed alone in a fresh context (and confirmed) before it is reported.  The `fresh`
+families run one history per script/context; their traces must equal the batched traces of the same histories line for line.
+
+Families per tier: see families(); evidence parts carry alphabet, depth and counts.  Authoring tools: `python3 -m vlib.checks.c06
+explore <ALPHABET> <depth> [fresh]`, vlib/c06_mklists.py; env VERIF_C06_DUMP=<file> dumps all divergences of a run,
+VERIF_C06_ONLY=a,b restricts the families (evidence then says non-exhaustive), VERIF_C06_PROGRESS=1 prints round progress.
 """
 import os, sys, time
 from .. import core
@@ -25,7 +34,7 @@ from .. import c06_gen as G
 def families(tier):
     f = [("full", "FULL", G.FULL, 1, False), ("full", "FULL", G.FULL, 2, False)]
     if tier == "thorough":
-        f += [("full", "FULL", G.FULL, 3, False), ("mid", "MID", G.MID, 4, False), ("special", "SPECIAL", G.SPECIAL, 4, False),
+        f += [("full", "FULL", G.FULL, 3, False), ("mid", "MID", G.MID, 4, False), ("special", "SPECIAL4", G.SPECIAL4, 4, False),
               ("global", "GLOBAL", G.GLOBAL, 5, False), ("array", "ARRAY", G.ARRAY, 5, False), ("core_m", "CORE_M", G.CORE_M, 5, False),
               ("fresh", "FULL", G.FULL, 1, True), ("fresh", "FULL", G.FULL, 2, True), ("fresh", "CORE_S", G.CORE_S, 4, True)]
     else:
@@ -377,7 +386,7 @@ def run(chk):
         "comparisons of per-history traces; up to 64 histories share one context per mode but every history has textually fresh "
         "site function literals (own CodeBlocks, own inline caches) and fresh objects; `fresh` families run one history per context "
         "and must agree with the batched run; distinct_outcomes = distinct caches-off traces")
-    chk.cov["alphabets"] = {"FULL": G.FULL, "MID": G.MID, "SPECIAL": G.SPECIAL, "GLOBAL": G.GLOBAL, "ARRAY": G.ARRAY, "CORE_M": G.CORE_M, "CORE_S": G.CORE_S}
+    chk.cov["alphabets"] = {"FULL": G.FULL, "MID": G.MID, "SPECIAL": G.SPECIAL, "SPECIAL4": G.SPECIAL4, "GLOBAL": G.GLOBAL, "ARRAY": G.ARRAY, "CORE_M": G.CORE_M, "CORE_S": G.CORE_S}
     for h in [("p.a=", "get_o", "del_p.a", "get_o"), ("p.a=", "get_o", "g_p", "get_o"), ("OP.a=", "gr", "G.a=", "gr")]:
         chk.sample({"hist": list(h), "src": G.script([h])[len(G.PROLOGUE):]})
     for h, on, off in ex.diverge[:3]:
